@@ -135,81 +135,86 @@ func checkSlotLength(p *Program, r *Result) {
 		r.undecided("C10.s", "mcap.indexedMessageIterator.loadChunk", "anchor", "", "not found")
 		return
 	}
-	fname := funcName(fn)
-	isLenOf := func(v ssa.Value, pred func(ssa.Value) bool) bool {
-		c, ok := stripConv(v).(*ssa.Call)
-		if !ok {
-			return false
-		}
-		b, isB := c.Call.Value.(*ssa.Builtin)
-		return isB && b.Name() == "len" && pred(c.Call.Args[0])
-	}
-	// comparisons (==, !=) with a returning mismatch branch
-	type lenCheck struct {
-		iff  *ssa.If
-		x, y ssa.Value
-	}
-	var checks []lenCheck
-	for _, in := range instrsOf(fn) {
-		b, ok := in.(*ssa.BinOp)
-		if !ok || (b.Op != token.NEQ && b.Op != token.EQL) {
-			continue
-		}
-		for _, ref := range *b.Referrers() {
-			iff, ok := ref.(*ssa.If)
+	anchor := fn
+	n := 0
+	for _, fn := range p.repoFunctions(pkgMcap) {
+		fname := funcName(fn)
+		isLenOf := func(v ssa.Value, pred func(ssa.Value) bool) bool {
+			c, ok := stripConv(v).(*ssa.Call)
 			if !ok {
+				return false
+			}
+			b, isB := c.Call.Value.(*ssa.Builtin)
+			return isB && b.Name() == "len" && pred(c.Call.Args[0])
+		}
+		// comparisons (==, !=) with a returning mismatch branch
+		type lenCheck struct {
+			iff  *ssa.If
+			x, y ssa.Value
+		}
+		var checks []lenCheck
+		for _, in := range instrsOf(fn) {
+			b, ok := in.(*ssa.BinOp)
+			if !ok || (b.Op != token.NEQ && b.Op != token.EQL) {
 				continue
 			}
-			mismatch := iff.Block().Succs[0]
-			if b.Op == token.EQL {
-				mismatch = iff.Block().Succs[1]
+			for _, ref := range *b.Referrers() {
+				iff, ok := ref.(*ssa.If)
+				if !ok {
+					continue
+				}
+				mismatch := iff.Block().Succs[0]
+				if b.Op == token.EQL {
+					mismatch = iff.Block().Succs[1]
+				}
+				if returnsNonNilErrOnAllPaths(fn, mismatch) {
+					checks = append(checks, lenCheck{iff, b.X, b.Y})
+				}
 			}
-			if returnsNonNilErrOnAllPaths(fn, mismatch) {
-				checks = append(checks, lenCheck{iff, b.X, b.Y})
+		}
+		isSlotBuf := func(v ssa.Value) bool { return loadOfField(v, "chunkSlot", "buf") }
+		isRecords := func(v ssa.Value) bool { return loadOfField(v, "Chunk", "Records") }
+		for _, ci := range callsIn(fn, func(ssa.CallInstruction) bool { return true }) {
+			c := ci.Common()
+			pos := p.pos(ci.Pos())
+			switch {
+			case calleeIs(ci, "io.ReadFull") && len(c.Args) == 2 && isSlotBuf(c.Args[1]):
+				n++
+				r.held("C10.s", fname, "slot filled by a full read", pos, "io.ReadFull into the exactly sized slot buffer fails if the chunk decodes to fewer bytes")
+			case func() bool { b, ok := c.Value.(*ssa.Builtin); return ok && b.Name() == "copy" && isSlotBuf(c.Args[0]) }():
+				n++
+				ok := false
+				for _, lc := range checks {
+					if (isLenOf(lc.x, isRecords) || isLenOf(lc.y, isRecords) || isLenOf(lc.x, func(v ssa.Value) bool { return v == c.Args[1] }) || isLenOf(lc.y, func(v ssa.Value) bool { return v == c.Args[1] })) &&
+						(lc.iff.Block() == ci.Block() || lc.iff.Block().Dominates(ci.Block())) {
+						ok = true
+					}
+				}
+				if ok {
+					r.held("C10.s", fname, "slot filled by copy, length checked", pos, "the source length is compared with the declared size before the copy")
+				} else {
+					r.violated("C10.s", fname, "slot filled by copy, length checked", pos,
+						"an uncompressed chunk's records are copied into the slot without checking that there are as many bytes as the header declares; the record walk then reads stale bytes of the previous chunk in a re-used slot as records")
+				}
+			case strings.HasSuffix(trimPkg(staticCalleeName(c)), ".DecodeAll"):
+				n++
+				ok := false
+				for _, lc := range checks {
+					if (isLenOf(lc.x, isSlotBuf) || isLenOf(lc.y, isSlotBuf)) && reachableFromSuccs(ci.Block())[lc.iff.Block()] || (isLenOf(lc.x, isSlotBuf) || isLenOf(lc.y, isSlotBuf)) && lc.iff.Block() == ci.Block() {
+						ok = true
+					}
+				}
+				if ok {
+					r.held("C10.s", fname, "slot filled by DecodeAll, length checked", pos, "the decoded length is compared with the declared size")
+				} else {
+					r.violated("C10.s", fname, "slot filled by DecodeAll, length checked", pos,
+						"the decoder returns as many bytes as the frame holds; nothing compares that with the declared uncompressed size, which bounds the record walk and NextInto's slices (stale data read as records, slice beyond the buffer length)")
+				}
 			}
 		}
 	}
-	isSlotBuf := func(v ssa.Value) bool { return loadOfField(v, "chunkSlot", "buf") }
-	isRecords := func(v ssa.Value) bool { return loadOfField(v, "Chunk", "Records") }
-	n := 0
-	for _, ci := range callsIn(fn, func(ssa.CallInstruction) bool { return true }) {
-		c := ci.Common()
-		pos := p.pos(ci.Pos())
-		switch {
-		case calleeIs(ci, "io.ReadFull") && len(c.Args) == 2 && isSlotBuf(c.Args[1]):
-			n++
-			r.held("C10.s", fname, "slot filled by a full read", pos, "io.ReadFull into the exactly sized slot buffer fails if the chunk decodes to fewer bytes")
-		case func() bool { b, ok := c.Value.(*ssa.Builtin); return ok && b.Name() == "copy" && isSlotBuf(c.Args[0]) }():
-			n++
-			ok := false
-			for _, lc := range checks {
-				if (isLenOf(lc.x, isRecords) || isLenOf(lc.y, isRecords) || isLenOf(lc.x, func(v ssa.Value) bool { return v == c.Args[1] }) || isLenOf(lc.y, func(v ssa.Value) bool { return v == c.Args[1] })) &&
-					(lc.iff.Block() == ci.Block() || lc.iff.Block().Dominates(ci.Block())) {
-					ok = true
-				}
-			}
-			if ok {
-				r.held("C10.s", fname, "slot filled by copy, length checked", pos, "the source length is compared with the declared size before the copy")
-			} else {
-				r.violated("C10.s", fname, "slot filled by copy, length checked", pos,
-					"an uncompressed chunk's records are copied into the slot without checking that there are as many bytes as the header declares; the record walk then reads stale bytes of the previous chunk in a re-used slot as records")
-			}
-		case strings.HasSuffix(trimPkg(staticCalleeName(c)), ".DecodeAll"):
-			n++
-			ok := false
-			for _, lc := range checks {
-				if (isLenOf(lc.x, isSlotBuf) || isLenOf(lc.y, isSlotBuf)) && reachableFromSuccs(ci.Block())[lc.iff.Block()] || (isLenOf(lc.x, isSlotBuf) || isLenOf(lc.y, isSlotBuf)) && lc.iff.Block() == ci.Block() {
-					ok = true
-				}
-			}
-			if ok {
-				r.held("C10.s", fname, "slot filled by DecodeAll, length checked", pos, "the decoded length is compared with the declared size")
-			} else {
-				r.violated("C10.s", fname, "slot filled by DecodeAll, length checked", pos,
-					"the decoder returns as many bytes as the frame holds; nothing compares that with the declared uncompressed size, which bounds the record walk and NextInto's slices (stale data read as records, slice beyond the buffer length)")
-			}
-		}
-	}
+	fn = anchor
+	fname := funcName(fn)
 	if n < 2 {
 		r.undecided("C10.s", fname, "ways of filling the slot", p.pos(fn.Pos()), "fewer than two fill sites recognised")
 	}
